@@ -1,6 +1,7 @@
 // SimBackend: the simulated solver's answer side, scripted by the scenario.
 #pragma once
 #include <list>
+#include <map>
 #include <string>
 #include <vector>
 
@@ -117,7 +118,19 @@ class SimBackend : public mp::FlatBackend<mp::MIPBackend<SimBackend>>, public Si
     std::vector<double> list_opt_;
     std::list<std::string> strlist_opt_;
   } opts_;
+  std::map<std::string, int> wc_;      // wildcard option wc:*:val, keyed by the '*' body
   mp::Interrupter* inter_ = nullptr;
+
+ public:
+  // observation of stored options (C11)
+  const std::string& opt_str() const { return opts_.str_opt_; }
+  int opt_int() const { return opts_.int_opt_; }
+  double opt_dbl() const { return opts_.dbl_opt_; }
+  bool opt_flag() const { return opts_.flag_opt_; }
+  const std::vector<double>& opt_list() const { return opts_.list_opt_; }
+  const std::map<std::string, int>& opt_wc() const { return wc_; }
+  int GetWC(const mp::SolverOption& opt) const { auto it = wc_.find(opt.wc_keybody_last()); return it == wc_.end() ? 0 : it->second; }
+  void SetWC(const mp::SolverOption& opt, int v) { wc_[opt.wc_keybody_last()] = v; }
 };
 
 std::unique_ptr<mp::BasicBackend> CreateSimBackend();
